@@ -270,6 +270,34 @@ def check_tag_loop(chk, sname, body, info, P="C13"):
                 if arr is not None:
                     init_req = sorted(tr.const_int(o) for o in arr["ops"])
                     req_local = l
+    if init_req is None:
+        # the same set built by collecting the array: `[a, b].into_iter().collect::<HashSet<u16>>()` / `HashSet::from_iter([..])`
+        for l in range(len(body.locals)):
+            if not ty_str(body.locals[l].get("ty")).startswith(HS.rstrip(":")):
+                continue
+            for d in tr.defs.get(l, []):
+                if d[2] != "call" or not callee(d[3]).endswith(("Iterator::collect", "FromIterator::from_iter")):
+                    continue
+                v = tr.value(d[3]["args"][0])
+                hops = 0
+                while v.kind == "call" and callee(v.term).endswith(("IntoIterator::into_iter", "<impl [T]>::iter", "Iterator::copied",
+                                                                    "Iterator::cloned")) and hops < 4:
+                    v = tr.value(v.term["args"][0])
+                    hops += 1
+                arr = None
+                if v.kind == "agg" and v.rv["kind"] == "array":
+                    arr = v.rv
+                elif v.kind == "ref":
+                    dd = tr.defs.get(v.place.l, [])
+                    if len(dd) == 1 and dd[0][2] == "assign" and dd[0][3]["rv"]["r"] == "agg" and dd[0][3]["rv"]["kind"] == "array":
+                        arr = dd[0][3]["rv"]
+                elif v.kind == "place":
+                    dd = tr.defs.get(v.place.l, [])
+                    if len(dd) == 1 and dd[0][2] == "assign" and dd[0][3]["rv"]["r"] == "agg" and dd[0][3]["rv"]["kind"] == "array":
+                        arr = dd[0][3]["rv"]
+                if arr is not None and all(tr.const_int(o) is not None for o in arr["ops"]):
+                    init_req = sorted(tr.const_int(o) for o in arr["ops"])
+                    req_local = l
     chk.require(init_req == want_req, P + "-c/required-set", sname,
                 "required-tag set is initialised to %s, mandatory tagged rows are %s" % (
                     [hex(x) for x in init_req] if init_req is not None else None, [hex(x) for x in want_req]),
@@ -335,6 +363,9 @@ def check_tag_loop(chk, sname, body, info, P="C13"):
                                   through_calls=lambda n, t: any(a in n for a in allowed))
                 from_req = any(s_[0] == "arg" and s_[1] == req_local for s_ in srcs) or \
                     any(s_[0] == "call" and "HashSet" in callee_res(body.blocks[s_[2]]["term"]) for s_ in srcs)
+                # (a set that was itself collected from the array of mandatory tags: the sources run through to those tags)
+                consts_ = {s_[1] for s_ in srcs if s_[0] == "const" and isinstance(s_[1], int)}
+                from_req = from_req or (init_req is not None and set(init_req) <= consts_)
                 calls_other = [s_ for s_ in srcs if s_[0] == "call" and not (
                     "From<[T; N]>>::from" in callee_res(body.blocks[s_[2]]["term"]) or
                     s_[1] == "core::convert::From::from")]
@@ -376,6 +407,17 @@ def check_tag_loop(chk, sname, body, info, P="C13"):
                             (len_of_local(tr, v.rv["a"], in_local0) or len_of_local(tr, v.rv["b"], in_local0)):
                         benign = True
                         what = "no progress"
+                if v.kind == "rv" and v.rv["r"] == "bin" and v.rv["op"] in ("Ne", "Eq") and in_local0 is not None and not benign:
+                    # the guard at the bottom of the iteration: `let before = bytes.len(); ..; if bytes.len() == before { break }`
+                    for p_, q_ in ((v.rv["a"], v.rv["b"]), (v.rv["b"], v.rv["a"])):
+                        vp, vq = tr.value(p_), tr.value(q_)
+                        if len_of_local(tr, p_, in_local0) and len_of_local(tr, q_, in_local0) and vp.kind == "call" and vq.kind == "call" and \
+                                vp.bb != vq.bb and vq.bb in loop_blocks and vp.bb in loop_blocks and body.dominates(vq.bb, vp.bb) and \
+                                body.dominates(vp.bb, x):
+                            zero_t = dict((val, tb) for val, tb in tx["targets"]).get(0)
+                            if y == (e_true if v.rv["op"] == "Eq" else zero_t):
+                                benign = True
+                                what = "no progress in this iteration"
                 if v.kind == "call" and callee(v.term).endswith(("cmp::PartialEq::eq", "cmp::PartialEq::ne")) and in_local0 is not None \
                         and not benign and progress_guard_replace(body, tr, hdr, loop_blocks, in_local0, sw_bb) and \
                         any(ty_str(x_).startswith("core::option::Option<usize") for x_ in (v.term.get("f") or {}).get("a", [])):
